@@ -21,10 +21,19 @@ func symDecimal(name string, n int) (string, uint64) {
 func H_C15_ldap_timestamp_to_unix() {
 	n := vParam("digits")
 	s, v := symDecimal("ts", n)
-	if n == 19 {
+	if n == 19 && vParam("neg") == 0 {
 		vAssume(v <= 9223372036854775807)
 	}
 	ticks := int64(v)
+	if vParam("neg") == 1 {
+		// negative tick counts (down to the 'never' sentinel -0x8000000000000000) lie before 1970: the answer is 0
+		if n == 19 {
+			vAssume(v <= 9223372036854775808)
+		}
+		vCheck(ConvertLDAPTimeStampToUnixTimeStamp("-"+s) == 0, "ldap/timestamp/negative-is-zero")
+		vCover("end")
+		return
+	}
 	got := ConvertLDAPTimeStampToUnixTimeStamp(s)
 	if ticks < UnixTimestampStart {
 		vCheck(got == 0, "ldap/timestamp/before-1970-is-zero")
